@@ -659,6 +659,8 @@ func vp9RtCase(x *Ctx, mk func(c *Case) (flex bool, init int, calls []vp9Call)) 
 				c.O.Tok("PAYLOAD-PANIC")
 				return
 			}
+			// the sender appends its trailer (auth tag, padding) to every packet in place
+			scribbleSpare(frags...)
 			all = append(all, frags)
 		}
 		for _, frags := range all {
